@@ -146,9 +146,15 @@ def _run(ctx, res):
     ctx._steps = steps
 
     def guarded(fn, nbytes, *a):
+        # the documented default `timeout=0` means "leave the socket's timeout alone" - whether it is left out, passed positionally or
+        # by keyword; the fake socket models a zero timeout like the OS does (non-blocking: what has not arrived is not waited for)
+        how = rng.randrange(3)
+        kw = {"timeout": 0} if how == 1 else {}
+        if how == 2:
+            a = a + (0,)
         steps.begin(60 * nbytes + 20000)
         try:
-            return fn(*a)
+            return fn(*a, **kw)
         except BudgetExceeded:
             res.count("calls-that-did-not-terminate")
             if res.counters["calls-that-did-not-terminate"] > 40:
